@@ -8,6 +8,7 @@ from caches import *
 tier = tier_arg()
 R = Result("C19", tier, "exploration")
 g = Garble(name="c19")
+nm = build_garble(overlay={os.path.join(REPO, "internal/verifnamemap/main.go"): os.path.join(VERIF, "harness/namemap/main.go")}, name="namemap", pkg="./internal/verifnamemap")
 MODP = "example.com/c19"
 def module(outcome):
     f = {
@@ -142,6 +143,12 @@ def run_case(ci):
     if ddstate and not refuse and oc == "success" and p.returncode == 0:
         real = os.path.realpath(ddpath)
         ddfiles = sorted(os.path.relpath(os.path.join(r, f), real) for r, _, fs in os.walk(real) for f in fs)
+        # every garbled file must be the obfuscated form of the source file of the same name
+        pn = run([nm, src, MODP, real], env=g.env(), timeout=600)
+        if pn.returncode == 0:
+            for rep in json.loads(pn.stdout):
+                for pr in rep["problems"] or []:
+                    v.append(("debugdir-garbled-content", "%s: %s: %s" % (label, rep["import_path"], pr)))
         if any("stale" in f for f in ddfiles):
             v.append(("debugdir-stale-files:" + ddstate, "%s: stale files survive in an owned debugdir: %s" % (label, [f for f in ddfiles if "stale" in f])))
     shutil.rmtree(root, ignore_errors=True)
